@@ -99,6 +99,52 @@ static std::string inChild(int seconds, int* why, const std::function<std::strin
   return out;
 }
 
+// one const query on the object G (db: the DbGrid owning G, or nullptr); encodings in coq/C16/Run.v
+static std::string answerQuery(const Grid& G, DbGrid* db, int ndim, const Sx& q) {
+  int f = (int) q[0].i();
+  std::ostringstream a;
+
+      if (f == 0) a << sx_d(G.getCoordinate((int) q[1].i(), (int) q[2].i(), true));
+      else if (f == 1) a << sx_d(db != nullptr ? db->getCoordinate((int) q[1].i(), (int) q[2].i()) : G.getCoordinate((int) q[1].i(), (int) q[2].i(), true));
+      else if (f == 20) a << sx_d(G.rankToCoordinate((int) q[2].i(), (int) q[1].i()));
+      else if (f == 2) { VI idx(ndim, 0); G.rankToIndice((int) q[1].i(), idx, false); a << sx_vi(idx); }
+      else if (f == 3) { VI ind = q[1].vi(); a << G.indiceToRank(ind); }
+      else if (f == 4) a << G.coordinateToRank(toVD(q[1].vd()), q[2].b(), q[3].d());
+      else if (f == 19) a << (db != nullptr ? db->coordinateToRank(toVD(q[1].vd()), q[2].b(), q[3].d()) : G.coordinateToRank(toVD(q[1].vd()), q[2].b(), q[3].d()));
+      else if (f == 5) { VectorInt idx(ndim); int err = G.coordinateToIndicesInPlace(toVD(q[1].vd()), idx, q[2].b(), q[3].d()); a << "(" << (err != 0 ? 1 : 0) << " " << sx_vi(deepi(idx)) << ")"; }
+      else if (f == 6) a << sx_vd(deep(G.getCoordinatesByRank((int) q[1].i(), true)));
+      else if (f == 9) a << sx_vd(deep(G.rankToCoordinates((int) q[1].i())));
+      else if (f == 18) a << sx_vd(deep(db != nullptr ? db->getCoordinatesPerSample((int) q[1].i()) : G.getCoordinatesByRank((int) q[1].i(), true)));
+      else if (f == 7) a << sx_vd(deep(G.getCoordinatesByIndice(toVI(q[1].vi()), true)));
+      else if (f == 8) a << sx_vd(deep(G.getCoordinatesByCorner(toVI(q[1].vi()))));
+      else if (f == 10) a << (G.sampleBelongsToCell(toVD(q[1].vd()), (int) q[2].i()) ? 1 : 0);
+      else if (f == 11) a << sx_vi(deepi(G.getCenterIndices()));
+      else if (f == 12 || f == 13 || f == 14) {
+        VectorInt nx(ndim); VectorDouble dx(ndim), x0(ndim);
+        for (int d = 0; d < ndim; d++) { nx[d] = -777; dx[d] = TEST; x0[d] = TEST; }
+        if (f == 12) G.multiple(toVI(q[1].vi()), q[2].b(), nx, dx, x0);
+        else if (f == 13) G.divider(toVI(q[1].vi()), q[2].b(), nx, dx, x0);
+        else G.dilate((int) q[2].i(), toVI(q[1].vi()), nx, dx, x0);
+        VI nxc = deepi(nx); bool ok = true; for (int v : nxc) if (v <= 0) ok = false;
+        if (ok) a << "(1 " << sx_vi(nxc) << " " << sx_vd(deep(dx)) << " " << sx_vd(deep(x0)) << ")"; else a << "(0)";
+      }
+      else if (f == 15) a << sx_vd(deep(G.indicesToCoordinate(toVI(q[1].vi()), toVD(q[2].vd()))));
+      else if (f == 16) a << sx_vd(deep(G.getCellCoordinatesByCorner((int) q[1].i(), toVI(q[2].vi()))));
+      else if (f == 17) {
+        int k = (int) q[1].i(); Grid& GI = const_cast<Grid&>(G);   // same object (it is not const itself)
+        GI.iteratorInit();
+        a << "("; for (int i = 0; i < k; i++) a << (i ? " " : "") << sx_vi(deepi(GI.iteratorNext())); a << ")";
+      }
+      else if (f == 21) { VI ind = q[1].vi(); a << sx_d(G.indiceToCoordinate((int) q[2].i(), ind, {}, true)); }
+      else if (f == 22) {
+        VD coor = q[1].vd(); VI pidx(ndim, 0);
+        if (db != nullptr) { int pout = point_to_grid(db, coor.data(), -1, pidx.data()); a << "(" << (pout != 0 ? 1 : 0) << " " << sx_vi(pidx) << ")"; }
+        else { VectorInt idx(ndim); int err = G.coordinateToIndicesInPlace(toVD(coor), idx, true, 0.); a << "(" << (err != 0 ? 1 : 0) << " " << sx_vi(deepi(idx)) << ")"; }
+      }
+      else a << "(-997 4)";
+  return a.str();
+}
+
 static std::string run(const Sx& c) {
   long long kind = c[0].i();
   std::ostringstream o;
@@ -215,6 +261,10 @@ static std::string run(const Sx& c) {
     if (db == nullptr) return "(-997 2)";
     bool mok = dbMatOk(s, db);
     DbGrid* out = nullptr;
+    if (op == 1 || op == 2) {   // a variable to be migrated onto the derived grid: 1000 + rank
+      int ng = db->getSampleNumber(); VectorDouble z(ng); for (int i = 0; i < ng; i++) z[i] = 1000. + i;
+      db->addColumns(z, "z", ELoc::Z);
+    }
     if (op == 0) out = db;
     else if (op == 1) out = DbGrid::createCoarse(db, toVI(c[3].vi()), c[4].b());
     else if (op == 2) out = DbGrid::createRefine(db, toVI(c[3].vi()), c[4].b());
@@ -233,7 +283,12 @@ static std::string run(const Sx& c) {
     for (int d = 0; d < nd; d++) cols.push_back(deep(out->getColumnByLocator(ELoc::X, d, false, false)));
     bool has = true; for (auto& cc : cols) if ((int) cc.size() < n) has = false;
     if (has) for (int r = 0; r < n; r++) { VD v; for (int d = 0; d < nd; d++) v.push_back(cols[d][r]); o << (r ? " " : "") << sx_vd(v); }
-    o << ") " << (mok ? 1 : 0) << " " << out->getSampleNumber() << ")";
+    o << ") " << (mok ? 1 : 0) << " " << out->getSampleNumber() << " (";
+    if (op == 1 || op == 2) {
+      VD zc = deep(out->getColumn("z", false, false));
+      for (int r = 0; r < n && r < (int) zc.size(); r++) o << (r ? " " : "") << sx_d(zc[r]);
+    }
+    o << "))";
     if (out != db) delete out;
     delete db;
   } else if (kind == 7) {     // migrate grid -> points: value = rank of the node the point is assigned to
@@ -282,7 +337,11 @@ static std::string run(const Sx& c) {
       rot.rotateDirect(v, a); rot.rotateInverse(v, b); rot.rotateInverse(a, d);
       o << (first ? "" : " ") << "(" << sx_vd(a) << " " << sx_vd(b) << " " << sx_vd(d) << ")"; first = false;
     }
-    o << "))";
+    o << ") ";
+    // matrix -> angles -> matrix, as every path that rebuilds a grid from getAngles() does
+    Rotation r2(n); int e2 = r2.setMatrixDirect(rot.getMatrixDirect());
+    Rotation r3(n); r3.setAngles(r2.getAngles());
+    o << e2 << " " << matRows(r3.getMatrixDirect(), n) << " " << sx_vd(deep(r2.getAngles())) << ")";
   } else if (kind == 10) {    // session: one object, a sequence of const queries (see coq/C16/Run.v for the encodings)
     GSpec s = readG(c[1]); Grid g0; bool mok = makeGrid(s, g0);
     DbGrid* db = makeDbGrid(s, true);
@@ -292,50 +351,91 @@ static std::string run(const Sx& c) {
     o << "(";
     bool first = true;
     for (auto& q : c[2].l) {
-      int f = (int) q[0].i();
-      std::ostringstream a;
-      if (f == 0) a << sx_d(G.getCoordinate((int) q[1].i(), (int) q[2].i(), true));
-      else if (f == 1) a << sx_d(db != nullptr ? db->getCoordinate((int) q[1].i(), (int) q[2].i()) : G.getCoordinate((int) q[1].i(), (int) q[2].i(), true));
-      else if (f == 20) a << sx_d(G.rankToCoordinate((int) q[2].i(), (int) q[1].i()));
-      else if (f == 2) { VI idx(s.ndim, 0); G.rankToIndice((int) q[1].i(), idx, false); a << sx_vi(idx); }
-      else if (f == 3) { VI ind = q[1].vi(); a << G.indiceToRank(ind); }
-      else if (f == 4) a << G.coordinateToRank(toVD(q[1].vd()), q[2].b(), q[3].d());
-      else if (f == 19) a << (db != nullptr ? db->coordinateToRank(toVD(q[1].vd()), q[2].b(), q[3].d()) : G.coordinateToRank(toVD(q[1].vd()), q[2].b(), q[3].d()));
-      else if (f == 5) { VectorInt idx(s.ndim); int err = G.coordinateToIndicesInPlace(toVD(q[1].vd()), idx, q[2].b(), q[3].d()); a << "(" << (err != 0 ? 1 : 0) << " " << sx_vi(deepi(idx)) << ")"; }
-      else if (f == 6) a << sx_vd(deep(G.getCoordinatesByRank((int) q[1].i(), true)));
-      else if (f == 9) a << sx_vd(deep(G.rankToCoordinates((int) q[1].i())));
-      else if (f == 18) a << sx_vd(deep(db != nullptr ? db->getCoordinatesPerSample((int) q[1].i()) : G.getCoordinatesByRank((int) q[1].i(), true)));
-      else if (f == 7) a << sx_vd(deep(G.getCoordinatesByIndice(toVI(q[1].vi()), true)));
-      else if (f == 8) a << sx_vd(deep(G.getCoordinatesByCorner(toVI(q[1].vi()))));
-      else if (f == 10) a << (G.sampleBelongsToCell(toVD(q[1].vd()), (int) q[2].i()) ? 1 : 0);
-      else if (f == 11) a << sx_vi(deepi(G.getCenterIndices()));
-      else if (f == 12 || f == 13 || f == 14) {
-        VectorInt nx(s.ndim); VectorDouble dx(s.ndim), x0(s.ndim);
-        for (int d = 0; d < s.ndim; d++) { nx[d] = -777; dx[d] = TEST; x0[d] = TEST; }
-        if (f == 12) G.multiple(toVI(q[1].vi()), q[2].b(), nx, dx, x0);
-        else if (f == 13) G.divider(toVI(q[1].vi()), q[2].b(), nx, dx, x0);
-        else G.dilate((int) q[2].i(), toVI(q[1].vi()), nx, dx, x0);
-        VI nxc = deepi(nx); bool ok = true; for (int v : nxc) if (v <= 0) ok = false;
-        if (ok) a << "(1 " << sx_vi(nxc) << " " << sx_vd(deep(dx)) << " " << sx_vd(deep(x0)) << ")"; else a << "(0)";
-      }
-      else if (f == 15) a << sx_vd(deep(G.indicesToCoordinate(toVI(q[1].vi()), toVD(q[2].vd()))));
-      else if (f == 16) a << sx_vd(deep(G.getCellCoordinatesByCorner((int) q[1].i(), toVI(q[2].vi()))));
-      else if (f == 17) {
-        int k = (int) q[1].i(); Grid& GI = const_cast<Grid&>(G);   // same object (it is not const itself)
-        GI.iteratorInit();
-        a << "("; for (int i = 0; i < k; i++) a << (i ? " " : "") << sx_vi(deepi(GI.iteratorNext())); a << ")";
-      }
-      else if (f == 21) { VI ind = q[1].vi(); a << sx_d(G.indiceToCoordinate((int) q[2].i(), ind, {}, true)); }
-      else if (f == 22) {
-        VD coor = q[1].vd(); VI pidx(s.ndim, 0);
-        if (db != nullptr) { int pout = point_to_grid(db, coor.data(), -1, pidx.data()); a << "(" << (pout != 0 ? 1 : 0) << " " << sx_vi(pidx) << ")"; }
-        else { VectorInt idx(s.ndim); int err = G.coordinateToIndicesInPlace(toVD(coor), idx, true, 0.); a << "(" << (err != 0 ? 1 : 0) << " " << sx_vi(deepi(idx)) << ")"; }
-      }
-      else a << "(-997 4)";
-      o << (first ? "" : " ") << a.str(); first = false;
+      std::string as = answerQuery(G, db, s.ndim, q);
+      o << (first ? "" : " ") << as; first = false;
     }
     o << " " << (mok ? 1 : 0) << ")";
     delete db;
+  } else if (kind == 14) {    // session with mutations on one Grid object
+    GSpec s = readG(c[1]); Grid g; bool mok = makeGrid(s, g);
+    int ndim = s.ndim;
+    auto matok = [&](const Sx& m) {
+      VD rm = deep(g.getRotMat()); int n = g.getNDim();
+      for (int j = 0; j < n; j++) for (int i = 0; i < n; i++) {
+        double want = m.size() == 0 ? (i == j ? 1. : 0.) : m[i][j].d();
+        if (rm[j * n + i] != want) return false;
+      }
+      return true;
+    };
+    o << "(";
+    bool first = true;
+    for (auto& q : c[2].l) {
+      int f = (int) q[0].i(); std::string as = "()";
+      if (f == 100) g.setX0((int) q[1].i(), q[2].d());
+      else if (f == 101) g.setDX((int) q[1].i(), q[2].d());
+      else if (f == 102) g.setNX((int) q[1].i(), (int) q[2].i());
+      else if (f == 103) { g.setRotationByAngles(toVD(q[1].vd())); if (!matok(q[2])) mok = false; }
+      else if (f == 104) { VD cm; int n = g.getNDim(); for (int j = 0; j < n; j++) for (int i = 0; i < n; i++) cm.push_back(q[2][i][j].d());
+                           g.setRotationByVector(toVD(cm)); if (!matok(q[2])) mok = false; }
+      else if (f == 105) { g.resetFromVector(toVI(q[1].vi()), toVD(q[2].vd()), toVD(q[3].vd()), toVD(q[4].vd())); ndim = g.getNDim(); if (!matok(q[5])) mok = false; }
+      else as = answerQuery(g, nullptr, ndim, q);
+      o << (first ? "" : " ") << as; first = false;
+    }
+    o << " " << (mok ? 1 : 0) << ")";
+  } else if (kind == 11 || kind == 12 || kind == 13 || kind == 15) {   // migration: 11 point->grid, 12 grid->point, 13 grid->grid, 15 grid->point interpolated
+    auto vals_of = [](const Sx& v) { VectorDouble r(v.size()); for (size_t i = 0; i < v.size(); i++) r[i] = v[i].d(TEST); return r; };
+    auto out_vals = [](const VD& r) { std::string t = "("; for (size_t i = 0; i < r.size(); i++) { if (i) t += " "; t += sx_d(r[i]); } return t + ")"; };
+    auto make_points = [&](const Sx& ps, int ndim, bool withval) -> Db* {
+      int np = (int) ps.size(); bool anysel = false;
+      for (int i = 0; i < np; i++) if (!ps[i][0].b()) anysel = true;
+      int ncol = ndim + (withval ? 1 : 0) + (anysel ? 1 : 0);
+      VectorDouble tab((size_t) np * ncol);
+      VectorString names, locs;
+      for (int d = 0; d < ndim; d++) { names.push_back("c" + std::to_string(d + 1)); locs.push_back("x" + std::to_string(d + 1));
+        for (int i = 0; i < np; i++) tab[(size_t) d * np + i] = ps[i][1][d].d(); }
+      int col = ndim;
+      if (withval) { names.push_back("v"); locs.push_back("z1"); for (int i = 0; i < np; i++) tab[(size_t) col * np + i] = ps[i][2].d(TEST); col++; }
+      if (anysel) { names.push_back("sel"); locs.push_back("sel"); for (int i = 0; i < np; i++) tab[(size_t) col * np + i] = ps[i][0].b() ? 1. : 0.; }
+      return Db::createFromSamples(np, ELoadBy::COLUMN, tab, names, locs, false);
+    };
+    GSpec s = readG(c[1]);
+    DbGrid* dg = makeDbGrid(s, false);
+    if (dg == nullptr) return "(-997 2)";
+    bool mok = dbMatOk(s, dg);
+    int err = 0; VD res; std::string extra;
+    if (kind == 11) {
+      int dt = (int) c[3].i(); VectorDouble dmax = toVD(c[4].vd()); int fl = (int) c[5].i();
+      Db* dp = make_points(c[6], s.ndim, true);
+      err = migrate(dp, dg, "v", dt, dmax, fl != 0, false, fl == 2);
+      if (err == 0) res = deep(dg->getColumnByColIdx(dg->getColumnNumber() - 1, false, false));
+      delete dp;
+    } else if (kind == 15) {
+      dg->addColumns(vals_of(c[2]), "z", ELoc::Z);
+      int dt = (int) c[4].i(); VectorDouble dmax = toVD(c[5].vd());
+      Db* dp = make_points(c[6], s.ndim, false);
+      err = migrate(dg, dp, "z", dt, dmax, false, true, false);
+      if (err == 0) res = deep(dp->getColumnByColIdx(dp->getColumnNumber() - 1, false, false));
+      delete dp;
+    } else if (kind == 12) {
+      dg->addColumns(vals_of(c[2]), "z", ELoc::Z);
+      int dt = (int) c[4].i(); VectorDouble dmax = toVD(c[5].vd());
+      Db* dp = make_points(c[6], s.ndim, false);
+      err = migrate(dg, dp, "z", dt, dmax, false, false, false);
+      if (err == 0) res = deep(dp->getColumnByColIdx(dp->getColumnNumber() - 1, false, false));
+      extra = " " + sx_vi(deepi(dg->locateDataInGrid(dp, VectorInt(), false, true))) + " " + sx_vi(deepi(dg->locateDataInGrid(dp, VectorInt(), true, true)));
+      delete dp;
+    } else {
+      dg->addColumns(vals_of(c[2]), "z", ELoc::Z);
+      GSpec s2 = readG(c[3]); DbGrid* dout = makeDbGrid(s2, false);
+      if (dout == nullptr) { delete dg; return "(-997 2)"; }
+      if (!dbMatOk(s2, dout)) mok = false;
+      int dt = (int) c[5].i(); VectorDouble dmax = toVD(c[6].vd());
+      err = migrate(dg, dout, "z", dt, dmax, c[7].b(), false, false);
+      if (err == 0) res = deep(dout->getColumnByColIdx(dout->getColumnNumber() - 1, false, false));
+      delete dout;
+    }
+    o << "(" << out_vals(res) << " " << (mok ? 1 : 0) << " " << err << extra << ")";
+    delete dg;
   } else o << "(-997 1)";
   return o.str();
 }
